@@ -29,6 +29,8 @@ STR_OPS = (
 ALTERING_OPS = {
     "trim", "trim_start", "trim_end", "trim_matches", "trim_start_matches", "trim_end_matches", "replace", "replacen", "to_lowercase", "to_uppercase",
     "to_ascii_lowercase", "to_ascii_uppercase", "truncate", "retain", "dedup", "escape_default", "escape_debug", "eq_ignore_ascii_case", "fstr()", "eval_attr()",
+    # tokenisers that drop empty pieces / collapse runs of separators: what is re-joined from their pieces is not the input
+    "split_whitespace", "split_ascii_whitespace", "lines", "split_terminator",
 }
 TABLE = os.path.join(os.path.dirname(os.path.dirname(os.path.abspath(__file__))), "tables", "str_ops.json")
 
